@@ -382,9 +382,17 @@ pub fn request_json(id: u64, h: &HtlcSpec, invs: &[InvSpec], cache: &mut HashMap
             4 => { b.swap(0, 31); if b[0] == b[31] { b[0] ^= 1; } }   // same bytes, other order
             5 => { for k in 16..32 { b[k] ^= 0xff; } }        // first half equal
             6 => { for k in 0..16 { b[k] ^= 0xff; } }         // second half equal
-            _ => { b[7] = b[7].wrapping_add(1); b[8] = b[8].wrapping_sub(1); }   // byte sum unchanged
+            7 => { b[7] = b[7].wrapping_add(1); b[8] = b[8].wrapping_sub(1); }   // byte sum unchanged
+            _ => {}
         }
-        hex::encode(b)
+        // a field that is not 32 bytes long: a prefix of the hash, nothing at all, one byte more
+        match v {
+            8 => hex::encode(&b[..20]),
+            9 => String::new(),
+            10 => hex::encode(&b[..31]),
+            11 => format!("{}00", hex::encode(b)),
+            _ => hex::encode(b),
+        }
     } else {
         hex::encode(hash_of(hash_index(&h.hash)).to_byte_array())
     };
